@@ -47,6 +47,31 @@ def nutterECS (payload : Bytes) (dataOff : Nat) : Bytes :=
         let p := setBytes payload dataOff (List.replicate (endOff - dataOff) 0)
         (p.set off 255).set (off + 1) 255
 
+/-- Go `p[i] = v`; `none` = run-time panic "index out of range" -/
+def setIdx? (p : Bytes) (i : Nat) (v : UInt8) : Option Bytes :=
+  if i < p.length then some (p.set i v) else none
+
+/-- Go `for i := a; i < a+n; i++ { p[i] = 0 }` with checked indexing -/
+def zeroRange? : Bytes → Nat → Nat → Option Bytes
+  | p, _, 0 => some p
+  | p, i, n + 1 => (setIdx? p i 0).bind fun p => zeroRange? p (i + 1) n
+
+/-- `nutterECSOption` with every index expression checked (reads and writes); `none` = panic.
+`NV.C13.nutter_no_oob` proves it never panics and agrees with `nutterECS`. -/
+def nutterECS? (payload : Bytes) (dataOff : Nat) : Option Bytes :=
+  if dataOff < 4 then some payload
+  else
+    let off := dataOff - 4
+    if off + 4 ≥ payload.length then some payload
+    else if ¬ (off + 3 < payload.length) then none     -- payload[off+3]
+    else
+      let size := byteAt payload (off + 3)
+      let endOff := off + 4 + size
+      if endOff > payload.length then some payload
+      else
+        (zeroRange? payload dataOff (endOff - dataOff)).bind fun p =>
+        (setIdx? p off 255).bind fun p => setIdx? p (off + 1) 255
+
 /-- the `for _, o := range opt.Options` body -/
 def applyOpts : List Opt → Query → Query
   | [], q => q
@@ -111,5 +136,10 @@ def parseFuel (fuel : Nat) (payload : Bytes) : LoopRes :=
       | some (_, p) => parseLoop fuel p q
 
 def parse (payload : Bytes) : LoopRes := parseFuel skipFuel payload
+
+/-- resolver/doh.go `DOH.resolve`: `http.NewRequestWithContext(ctx, "POST", url,
+bytes.NewReader(q.Payload))` — the request body is the (possibly rewritten) payload, nothing
+else of the query is serialised into the body. -/
+def dohPostBody (q : Query) : Bytes := q.payload
 
 end NV
